@@ -15,6 +15,8 @@ import (
 	"github.com/mimecast/dtail/internal/clients"
 	"github.com/mimecast/dtail/internal/config"
 	"github.com/mimecast/dtail/internal/io/dlog"
+	"github.com/mimecast/dtail/internal/io/line"
+	"github.com/mimecast/dtail/internal/io/pool"
 	"github.com/mimecast/dtail/internal/omode"
 	"github.com/mimecast/dtail/internal/server"
 	"github.com/mimecast/dtail/internal/source"
@@ -57,6 +59,9 @@ var worldCtr int
 var devNull *os.File
 
 func newWorld(sim *verifsim.Sim) *World {
+	// process-wide state that survives a run: start every run from the same
+	pool.VerifReset()
+	line.VerifReset()
 	worldCtr++
 	// fixed-length path: the path is part of commands and log records, so its
 	// length must not differ between a run and its replay in another process
@@ -106,6 +111,8 @@ func (w *World) cleanup() {
 	os.Setenv("HOME", w.oldHome)
 	os.RemoveAll(w.Dir)
 	dlog.VerifReset()
+	pool.VerifReset()
+	line.VerifReset()
 }
 
 // Data returns the path of a data file of this run.
